@@ -49,6 +49,8 @@ def build_tree(
         return StringNode(python_obj)
     elif isinstance(python_obj, bytes):
         return StringNode(python_obj.decode('utf-8'))
+    elif python_obj is None:
+        return NullNode()
     elif force_leaf_node:
         raise ValueError(f"{python_obj!r} was expected to be an int or string, but was instead a {type(python_obj)}")
     elif isinstance(python_obj, list) or isinstance(python_obj, tuple):
@@ -70,8 +72,6 @@ def build_tree(
             return dict_node
         else:
             return FixedKeyDictNode.from_dict(dict_items)
-    elif python_obj is None:
-        return NullNode()
     else:
         raise ValueError(f"Unsupported Python object {python_obj!r} of type {type(python_obj)}")
 
